@@ -34,7 +34,7 @@ import numpy as np
 from hypothesis import HealthCheck, Phase, given, settings
 from hypothesis import strategies as st
 
-from vf import util
+from vf import funcs, util
 from vf.gen import chunks as gchunks
 from vf.gen import indices as gidx
 from vf.gen.draw import D
@@ -277,6 +277,10 @@ def _axis(st_):
     return tuple(ax) if isinstance(ax, list) else ax
 
 
+def _sibling(k):
+    return (np.arange(k * k, dtype="f8").reshape(k, k) % 7) * 0.5
+
+
 def np_step(a, s):
     op = s["op"]
     if op == "slice":
@@ -292,6 +296,10 @@ def np_step(a, s):
         return a - a
     if op == "add_T":
         return a + a.T
+    if op == "sibling_T":
+        assert a.ndim in (1, 2) and a.shape[-1] >= 2 and (a.ndim == 1 or a.shape[0] in (1, a.shape[-1])) and 1 <= s["c"] <= a.shape[-1]
+        y = funcs.times_two(_sibling(a.shape[-1]) * 1.5)
+        return a + (y + y.T)
     if op == "scalar":
         fn, c = s["fn"], s["c"]
         if fn == "add":
@@ -343,6 +351,11 @@ def da_step(y, s):
         return y - y
     if op == "add_T":
         return y + y.T
+    if op == "sibling_T":
+        k = y.shape[-1]
+        # map_blocks over an elemwise input: fusable with its own input on a later pass, opaque to transposes
+        sib = da.map_blocks(funcs.times_two, da.from_array(_sibling(k), chunks=(s["c"], s["c"])) * 1.5, dtype="f8")
+        return y + (sib + sib.T)
     if op == "scalar":
         fn, c = s["fn"], s["c"]
         if fn == "add":
@@ -1164,7 +1177,13 @@ def gen_step(D_, a, depth):
     even = [ax for ax in range(rank) if shape[ax] % 2 == 0]
     if even:
         kinds.append(("evenodd", 3))
+    if rank in (1, 2) and shape[-1] >= 2 and (rank == 1 or shape[0] in (1, shape[-1])) and a.dtype.kind in "if":
+        # the random array next to a deterministic sibling that is read through two block patterns (y + y.T):
+        # the sibling is thrown back out of the first fusion group and fused on a later pass
+        kinds.append(("sibling_T", 4))
     op = D_.weighted(kinds)
+    if op == "sibling_T":
+        return {"op": "sibling_T", "c": D_.int(1, max(1, shape[-1] - 1))}
     if op == "slice":
         return {"op": "slice", "index": gidx.enc(gidx.gen_basic_index(D_, shape))}
     if op == "rechunk":
